@@ -2047,6 +2047,8 @@ class Interp:
             "set": set,
             "str": str,
             "repr": Builtin("repr", lambda x: repr(x)),
+            # identity of the abstract object (a number only ever used as a key / compared for equality)
+            "id": Builtin("id", lambda x: id(x)),
             "int": int,
             "float": float,
             "bool": Builtin("bool", lambda x=False: I.truth(x)),
